@@ -51,6 +51,14 @@ EnvKept == Applies({"EnvKept"}) =>
    determinants, whether or not the groups titrate (values may differ through the buried-pair exception rules).
    scA / scB list the pairs scored non-iteratively; for iterative pairs the listing depends on computed pKa values *)
 PartnersKept == Applies({"EnvKept"}) => R.scA = R.scB
+(* iterative acid-base pairs (tla/Iterative.tla, Ion): R.ion lists the pairs that are hydrogen-bonded in the
+   unrestricted run A, value hb > 0 by the geometric rule, and of which exactly one member is listed in run B, as
+   <<present in B, acid pKa, base pKa, hb>> (micro-pKa, B's values).  With the unlisted member not titrating the Coulomb
+   value of the pair is 0 in B, so at the fixed point of the iteration (R.conv = 1) the hydrogen bond may only be
+   absent if the Ion rule does not add it: acid - hb >= base + hb.  An unlisted residue that stopped acting as
+   hydrogen-bond partner shows as an absent pair whose pKa values say it must be there. *)
+IonPairKept == Applies({"EnvKept"}) /\ R.conv = 1 =>
+                 \A k \in 1..Len(R.ion) : LET p == R.ion[k] IN p[1] = 1 \/ p[2] - p[3] >= 2 * p[4] - 2000
 (* hydrogens built in a moved frame are the moved hydrogens, up to coordinate rounding (C04 c, C17) *)
 HydNear(h, k) == h[1] = k[1] /\ Near(h[2], k[2], R.epsc) /\ Near(h[3], k[3], R.epsc) /\ Near(h[4], k[4], R.epsc)
 HydEquivariant == R.hashyd = 1 =>
